@@ -274,5 +274,371 @@ theorem addUnits_recase (A : N → N → Prop) : ∀ (us us' : List (UnitD N)) (
 
 end Stage1
 
+/-! ## §3 stage 2: connections -/
+
+section Stage2
+variable {N : Type}
+
+/-- two results agree: the same value, or errors related by `R` -/
+def ExRel {ε α : Type} (R : ε → ε → Prop) : Except ε α → Except ε α → Prop
+  | .ok a, .ok b => a = b
+  | .error e, .error e' => R e e'
+  | _, _ => False
+
+theorem ExRel.refl {ε α : Type} {R : ε → ε → Prop} (hR : ∀ e, R e e) (x : Except ε α) : ExRel R x x := by
+  cases x with
+  | ok a => exact rfl
+  | error e => exact hR e
+
+theorem ExRel.of_eq {ε α : Type} {R : ε → ε → Prop} (hR : ∀ e, R e e) {x y : Except ε α} (h : x = y) : ExRel R x y :=
+  h ▸ ExRel.refl hR x
+
+theorem ExRel.toOption_eq {ε α : Type} {R : ε → ε → Prop} {x y : Except ε α} (h : ExRel R x y) :
+    x.toOption = y.toOption := by
+  cases x <;> cases y <;> first | exact h.elim | (simp only [ExRel] at h; simp [Except.toOption, h])
+
+theorem ExRel.isOk_eq {ε α : Type} {R : ε → ε → Prop} {x y : Except ε α} (h : ExRel R x y) : x.isOk = y.isOk := by
+  cases x <;> cases y <;> first | exact h.elim | rfl
+
+/-- apply `f` to every name an error carries -/
+def mapErr (f : N → N) : LoadError N → LoadError N
+  | .dupElem o n => .dupElem (f o) (f n)
+  | .badWidth u w => .badWidth (f u) w
+  | .badEdge e => .badEdge (e.map f)
+  | .undefElem x => .undefElem (f x)
+  | .cyclic => .cyclic
+  | .deadInput p => .deadInput (f p)
+  | .emptyProc => .emptyProc
+  | .pathLock s t c => .pathLock (f s) t (f c)
+  | .blockedCap c p => .blockedCap (f c) (f p)
+
+theorem cls_mapErr (f : N → N) (e : LoadError N) : (mapErr f e).cls = e.cls := by cases e <;> rfl
+
+/-- the same exception class, the names it carries equal up to case -/
+def ErrSame (fold : N → N) (e e' : LoadError N) : Prop := mapErr fold e = mapErr fold e'
+
+theorem ErrSame.refl (fold : N → N) (e : LoadError N) : ErrSame fold e e := rfl
+
+theorem ErrSame.cls_eq {fold : N → N} {e e' : LoadError N} (h : ErrSame fold e e') : e.cls = e'.cls := by
+  rw [← cls_mapErr fold e, ← cls_mapErr fold e', h]
+
+variable [DecidableEq N] (fold : N → N)
+
+/-- the `_add_edge` loop on re-cased connections: the same standardised connections, or the same kind of error -/
+theorem addEdges_recase (names : List N) : ∀ (es es' : List (List N)) (acc : List (N × N)),
+    Forall2 (Forall2 (SameFold fold)) es es' →
+    ExRel (ErrSame fold) (addEdges fold names es acc) (addEdges fold names es' acc)
+  | [], [], _, _ => rfl
+  | [], _ :: _, _, h => h.elim
+  | _ :: _, [], _, h => h.elim
+  | e :: es, e' :: es', acc, h => by
+    obtain ⟨he, hrest⟩ := h
+    have hmap : e.map fold = e'.map fold := Forall2.map_eq (fun _ _ h => h) he
+    have bad : ExRel (ErrSame fold) (Except.error (.badEdge e) : Except _ (List (N × N))) (.error (.badEdge e')) := by
+      show mapErr fold _ = mapErr fold _
+      simp only [mapErr, hmap]
+    match e, e', he with
+    | [], [], _ => exact bad
+    | [_], [_], _ => exact bad
+    | _ :: _ :: _ :: _, _ :: _ :: _ :: _, _ => exact bad
+    | [a, b], [a', b'], he =>
+      have ha : fold a = fold a' := he.1
+      have hb : fold b = fold b' := he.2.1
+      simp only [addEdges]
+      rw [← lookupFold_congr fold ha, ← lookupFold_congr fold hb]
+      cases lookupFold fold names a with
+      | none => show mapErr fold _ = mapErr fold _; simp only [mapErr, ha]
+      | some x =>
+        cases lookupFold fold names b with
+        | none => show mapErr fold _ = mapErr fold _; simp only [mapErr, hb]
+        | some y => exact addEdges_recase names es es' _ hrest
+    | [], _ :: _, he => exact he.elim
+    | _ :: _, [], he => exact he.elim
+    | [_], _ :: _ :: _, he => exact he.2.elim
+    | _ :: _ :: _, [_], he => exact he.2.elim
+    | [_, _], _ :: _ :: _ :: _, he => exact he.2.2.elim
+    | _ :: _ :: _ :: _, [_, _], he => exact he.2.2.elim
+
+end Stage2
+
+/-! ## §4 nothing after `_create_graph` reads the raw memory-access lists -/
+
+section MapAcl
+attribute [local implicit_reducible] ProcSim.AMap
+variable {N : Type} [DecidableEq N]
+
+/-- rewrite the raw memory-access list of a node -/
+def mapAclN (f : List N → List N) (n : GNode N) : GNode N := { n with acl := f n.acl }
+
+/-- rewrite the raw memory-access lists of all nodes -/
+def mapAcl (f : List N → List N) (g : Graph N) : Graph N := ⟨g.nodes.map (mapAclN f), g.edges⟩
+
+variable (f : List N → List N) (g : Graph N)
+
+@[simp] theorem mapAcl_edges : (mapAcl f g).edges = g.edges := rfl
+theorem mapAcl_mk (ns : List (GNode N)) (es : List (N × N)) :
+    (⟨ns.map (mapAclN f), es⟩ : Graph N) = mapAcl f ⟨ns, es⟩ := rfl
+@[simp] theorem mapAclN_name (n : GNode N) : (mapAclN f n).name = n.name := rfl
+@[simp] theorem mapAclN_caps (n : GNode N) : (mapAclN f n).caps = n.caps := rfl
+@[simp] theorem mapAclN_rd (n : GNode N) : (mapAclN f n).rd = n.rd := rfl
+@[simp] theorem mapAclN_wr (n : GNode N) : (mapAclN f n).wr = n.wr := rfl
+@[simp] theorem mapAclN_width (n : GNode N) : (mapAclN f n).width = n.width := rfl
+
+@[simp] theorem mapAcl_names : (mapAcl f g).names = g.names := by
+  simp only [Graph.names, mapAcl, List.map_map]
+  rfl
+
+@[simp] theorem mapAcl_length : (mapAcl f g).nodes.length = g.nodes.length := by simp [mapAcl]
+@[simp] theorem mapAcl_preds (u : N) : (mapAcl f g).preds u = g.preds u := rfl
+@[simp] theorem mapAcl_succs (u : N) : (mapAcl f g).succs u = g.succs u := rfl
+@[simp] theorem mapAcl_inPorts : (mapAcl f g).inPorts = g.inPorts := by simp [Graph.inPorts]
+@[simp] theorem mapAcl_outPorts : (mapAcl f g).outPorts = g.outPorts := by simp [Graph.outPorts]
+
+theorem mapAcl_node? (u : N) : (mapAcl f g).node? u = (g.node? u).map (mapAclN f) := by
+  simp only [Graph.node?, mapAcl, List.find?_map]
+  rfl
+
+@[simp] theorem mapAcl_capsOf (u : N) : (mapAcl f g).capsOf u = g.capsOf u := by
+  simp only [Graph.capsOf, mapAcl_node?]
+  cases g.node? u <;> rfl
+
+@[simp] theorem mapAcl_topoOrder : topoOrder (mapAcl f g) = topoOrder g := by simp [topoOrder]
+@[simp] theorem mapAcl_isAcyclic : isAcyclic (mapAcl f g) = isAcyclic g := by simp [isAcyclic]
+
+theorem mapAcl_setCaps (u : N) (cs : List N) : (mapAcl f g).setCaps u cs = mapAcl f (g.setCaps u cs) := by
+  simp only [Graph.setCaps, mapAcl, List.map_map]
+  congr 1
+  apply List.map_congr_left
+  intro n _
+  simp only [Function.comp, mapAclN_name]
+  by_cases h : n.name = u <;> simp [h, mapAclN]
+
+theorem mapAcl_removeNodes (dead : List N) : (mapAcl f g).removeNodes dead = mapAcl f (g.removeNodes dead) := by
+  simp only [Graph.removeNodes, mapAcl, List.filter_map]
+  rfl
+
+theorem mapAcl_cleanUnit (u : N) : cleanUnit (mapAcl f g) u = mapAcl f (cleanUnit g u) := by
+  unfold cleanUnit
+  simp only [mapAcl_preds, mapAcl_capsOf, mapAcl_edges, mapAcl_setCaps]
+  split <;> rfl
+
+theorem mapAcl_foldl_cleanUnit (l : List N) : ∀ g : Graph N,
+    l.foldl cleanUnit (mapAcl f g) = mapAcl f (l.foldl cleanUnit g) := by
+  induction l with
+  | nil => intro g; rfl
+  | cons u l ih => intro g; simp only [List.foldl_cons, mapAcl_cleanUnit, ih]
+
+theorem mapAcl_cleanStruct : cleanStruct (mapAcl f g) = mapAcl f (cleanStruct g) := by
+  simp only [cleanStruct, mapAcl_topoOrder, mapAcl_foldl_cleanUnit]
+
+theorem mapAcl_rmEmpty : rmEmpty (mapAcl f g) = mapAcl f (rmEmpty g) := by
+  unfold rmEmpty
+  rw [mapAcl_removeNodes]
+  congr 2
+  simp only [mapAcl, List.filter_map, List.map_map]
+  rfl
+
+theorem mapAcl_chkTerminals (in0 out0 : List N) : ∀ (fuel : Nat) (g : Graph N),
+    chkTerminals in0 out0 fuel (mapAcl f g) = (chkTerminals in0 out0 fuel g).map (mapAcl f)
+  | 0, g => rfl
+  | fuel + 1, g => by
+    simp only [chkTerminals, mapAcl_outPorts, mapAcl_removeNodes]
+    split
+    · rfl
+    · split
+      · rfl
+      · exact mapAcl_chkTerminals in0 out0 fuel _
+
+@[simp] theorem mapAcl_capUnits : capUnits (mapAcl f g) = capUnits g := by simp [capUnits]
+
+@[simp] theorem mapAcl_capSuccs (cap u : N) : capSuccs (mapAcl f g) cap u = capSuccs g cap u := by simp [capSuccs]
+
+@[simp] theorem mapAcl_chkPathLocks (cap : N) (locks : Locks N) (u : N) :
+    chkPathLocks (mapAcl f g) cap locks u = chkPathLocks g cap locks u := by
+  unfold chkPathLocks
+  simp only [mapAcl_capSuccs, mapAcl_node?]
+  cases g.node? u <;> rfl
+
+@[simp] theorem mapAcl_lockPass (cap : N) : ∀ (us : List N) (l : Locks N),
+    lockPass (mapAcl f g) cap us l = lockPass g cap us l
+  | [], _ => rfl
+  | u :: us, l => by
+    simp only [lockPass, mapAcl_chkPathLocks]
+    split
+    · rfl
+    · exact mapAcl_lockPass cap us _
+
+@[simp] theorem mapAcl_reachPass (cap : N) (outs : List N) : ∀ (us acc : List N),
+    reachPass (mapAcl f g) cap outs us acc = reachPass g cap outs us acc
+  | [], _ => rfl
+  | u :: us, acc => by
+    simp only [reachPass, mapAcl_capSuccs, mapAcl_reachPass cap outs us]
+
+@[simp] theorem mapAcl_chkCapList (post outs : List N) (multi : Bool) : ∀ (l : List (N × List N)),
+    chkCapList (mapAcl f g) post outs multi l = chkCapList g post outs multi l
+  | [] => rfl
+  | (cap, ports) :: rest => by
+    simp only [chkCapList, mapAcl_capsOf, mapAcl_lockPass, mapAcl_reachPass, mapAcl_chkCapList post outs multi rest]
+
+@[simp] theorem mapAcl_chkCaps : chkCaps (mapAcl f g) = chkCaps g := by simp [chkCaps]
+
+/-- `_prep_proc_desc` commutes with rewriting the raw memory-access lists -/
+theorem mapAcl_prepare : prepare (mapAcl f g) = (prepare g).map (mapAcl f) := by
+  unfold prepare
+  simp only [mapAcl_isAcyclic, mapAcl_inPorts, mapAcl_outPorts, mapAcl_cleanStruct, mapAcl_rmEmpty, mapAcl_length,
+    mapAcl_chkTerminals]
+  split
+  · rfl
+  · cases chkTerminals g.inPorts g.outPorts ((rmEmpty (cleanStruct g)).nodes.length + 1) (rmEmpty (cleanStruct g)) with
+    | error e => rfl
+    | ok g2 =>
+      simp only [Except.map, mapAcl_names, mapAcl_chkCaps]
+      split
+      · rfl
+      · cases chkCaps g2 <;> rfl
+
+end MapAcl
+
+/-! ## §5 `load_proc_desc` -/
+
+section Load
+variable {N : Type} [DecidableEq N] [LT N] [DecidableRel (α := N) (· < ·)] (fold : N → N)
+
+theorem stdCap_idem (reg : List N) (c : N) : stdCap fold reg (stdCap fold reg c) = stdCap fold reg c := by
+  unfold stdCap
+  cases h : lookupFold fold reg c with
+  | none => simp [h]
+  | some s =>
+    have := (lookupFold_some fold h).2
+    simp only [Option.getD_some]
+    rw [lookupFold_congr fold this, h]
+    rfl
+
+/-- standard spellings of re-cased references agree, provided the registry covers the capabilities `P` and a
+reference to none of them is left as it is -/
+theorem stdCap_recase {reg P : List N} (hP : Cover fold P reg) {c c' : N} (hf : fold c = fold c')
+    (hfirst : (∀ x ∈ P, fold x ≠ fold c) → c = c') : stdCap fold reg c = stdCap fold reg c' := by
+  unfold stdCap
+  rw [← lookupFold_congr fold hf]
+  cases h : lookupFold fold reg c with
+  | none => simpa using hfirst (hP.none fold h)
+  | some s => rfl
+
+theorem mkModel_mapAclN (reg : List N) (n : GNode N) :
+    mkModel fold reg (mapAclN (List.map (stdCap fold reg)) n) = mkModel fold reg n := by
+  simp only [mkModel, mapAclN, List.map_map]
+  congr 3
+  funext c
+  exact stdCap_idem fold reg c
+
+theorem filter_map_mapAclN {β : Type} (f : List N → List N) (p : GNode N → Bool) (h : GNode N → β)
+    (hp : ∀ n, p (mapAclN f n) = p n) (hh : ∀ n, h (mapAclN f n) = h n) (l : List (GNode N)) :
+    ((l.map (mapAclN f)).filter p).map h = (l.filter p).map h := by
+  induction l with
+  | nil => rfl
+  | cons a l ih =>
+    simp only [List.map_cons, List.filter_cons, hp]
+    split <;> simp [hh, ih]
+
+/-- `_make_processor` standardises the memory-access lists itself -/
+theorem makeProcessor_mapAcl (reg : List N) (g : Graph N) :
+    makeProcessor fold reg (mapAcl (List.map (stdCap fold reg)) g) = makeProcessor fold reg g := by
+  unfold makeProcessor
+  simp only [mapAcl_preds, mapAcl_succs]
+  congr 1
+  all_goals
+    exact filter_map_mapAclN _ _ _ (fun _ => rfl) (fun n => by simp only [mkModel_mapAclN, mapAclN_name]) _
+
+/-- everything `load_proc_desc` does after `_create_graph` -/
+def finish (reg : List N) (g : Graph N) : Except (LoadError N) (Proc N) :=
+  match prepare g with
+  | .error e => .error e
+  | .ok g2 =>
+    match makeProcessor fold reg g2 with
+    | some p => .ok p
+    | none => .error .cyclic
+
+theorem load_eq_finish (d : Desc N) :
+    load fold d =
+      match addUnits fold d.units [] [] with
+      | .error e => .error e
+      | .ok r =>
+        match addEdges fold (r.1.map (·.name)) d.edges [] with
+        | .error e => .error e
+        | .ok es => finish fold r.2 ⟨r.1, es⟩ := by
+  unfold load createGraph finish
+  cases addUnits fold d.units [] [] with
+  | error e => rfl
+  | ok r =>
+    simp only
+    cases addEdges fold (r.1.map (·.name)) d.edges [] <;> rfl
+
+theorem finish_mapAcl (reg : List N) (g : Graph N) :
+    finish fold reg (mapAcl (List.map (stdCap fold reg)) g) = finish fold reg g := by
+  unfold finish
+  rw [mapAcl_prepare]
+  cases prepare g with
+  | error e => rfl
+  | ok g2 => simp only [Except.map, makeProcessor_mapAcl]
+
+theorem mapAclN_eq_of_nodeRel {A : N → N → Prop} {S : N → N} (hS : ∀ c c', A c c' → S c = S c') {n n' : GNode N}
+    (h : NodeRel A n n') : mapAclN (List.map S) n = mapAclN (List.map S) n' := by
+  obtain ⟨h1, h2, h3, h4, h5, h6⟩ := h
+  cases n; cases n'
+  simp only at h1 h2 h3 h4 h5 h6
+  subst h1 h2 h3 h4 h5
+  simp only [mapAclN, GNode.mk.injEq, true_and]
+  exact Forall2.map_eq hS h6
+
+/-- **the loader on a re-cased description** (relations in unbundled form): the same processor, or the same kind
+of error -/
+theorem load_recase_core (A : N → N → Prop) {d d' : Desc N}
+    (hu : UnitsRel fold A [] d.units d'.units)
+    (hA : ∀ c c', A c c' → fold c = fold c' ∧ ((∀ x ∈ d.units.flatMap (·.caps), fold x ≠ fold c) → c = c'))
+    (he : Forall2 (Forall2 (SameFold fold)) d.edges d'.edges) :
+    ExRel (ErrSame fold) (load fold d) (load fold d') := by
+  have h1 := addUnits_recase fold A d.units d'.units [] [] [] hu (Cover.nil fold [])
+  rw [load_eq_finish, load_eq_finish]
+  revert h1
+  cases addUnits fold d.units [] [] with
+  | error e =>
+    cases addUnits fold d'.units [] [] with
+    | error e' => intro h1; simp only at h1; subst h1; exact ErrSame.refl fold e
+    | ok r' => exact fun h => False.elim h
+  | ok r =>
+    cases addUnits fold d'.units [] [] with
+    | error e' => exact fun h => False.elim h
+    | ok r' =>
+      intro h1
+      obtain ⟨hreg, hcov, hnodes⟩ := h1
+      simp only [List.nil_append] at hcov
+      have hnames : r.1.map (·.name) = r'.1.map (·.name) := Forall2.map_eq (fun _ _ h => h.1) hnodes
+      have h2 := addEdges_recase fold (r.1.map (·.name)) d.edges d'.edges [] he
+      simp only [← hnames, ← hreg]
+      revert h2
+      cases addEdges fold (r.1.map (·.name)) d.edges [] with
+      | error e =>
+        cases addEdges fold (r.1.map (·.name)) d'.edges [] with
+        | error e' => exact id
+        | ok es' => exact fun h => False.elim h
+      | ok es =>
+        cases addEdges fold (r.1.map (·.name)) d'.edges [] with
+        | error e' => exact fun h => False.elim h
+        | ok es' =>
+          intro h2
+          simp only [ExRel] at h2
+          subst h2
+          simp only
+          have hS : ∀ c c', A c c' → stdCap fold r.2 c = stdCap fold r.2 c' := fun c c' h =>
+            stdCap_recase fold hcov (hA c c' h).1 (hA c c' h).2
+          have hg : mapAcl (List.map (stdCap fold r.2)) ⟨r.1, es⟩ = mapAcl (List.map (stdCap fold r.2)) ⟨r'.1, es⟩ := by
+            simp only [mapAcl]
+            congr 1
+            exact Forall2.map_eq (fun _ _ h => mapAclN_eq_of_nodeRel hS h) hnodes
+          apply ExRel.of_eq (ErrSame.refl fold)
+          rw [← finish_mapAcl fold r.2 ⟨r.1, es⟩, hg, finish_mapAcl]
+
+end Load
+
 end Recase
 end ProcSim
